@@ -212,18 +212,25 @@ def check_property(prop, tier, seconds, max_plans, workers):
                                                                        plan["scenario"]))
             return 2
     # 4. shrink + replay the unknown failures
+    # (the whole phase is bounded: a defect that makes the library slow must not turn the check
+    # into one that never ends; candidates run under a short per-segment limit, and when the time
+    # is used up the remaining failure classes are reported unminimised)
+    t_phase_end = time.time() + (180 if tier == "quick" else 720)
     for key in sorted(unknown_groups)[:4]:
         stub, f = unknown_groups[key]
         plan = gen_plans(prop, base, stub["k"], 1, tier)[0]
         log = []
-        if os.environ.get("FMSIM_NO_SHRINK"):
+        if os.environ.get("FMSIM_NO_SHRINK") or time.time() > t_phase_end - 15:
             # sensitivity sweeps over many seeded changes only need to know whether and by which
             # check a change is caught: report the unminimised plan
             path = orch.write_replay(plan, f, plan["seed"], tier)
             violations.append((f, path))
             continue
         small = orch.shrink(plan, f, orch.REPO, budget=150 if tier == "quick" else 400,
-                            known=known, log=log, seconds=90 if tier == "quick" else 300)
+                            known=known, log=log,
+                            seconds=min(90 if tier == "quick" else 300,
+                                        t_phase_end - time.time()),
+                            wall=30 if tier == "quick" else 60)
         path = orch.write_replay(small, f, plan["seed"], tier)
         _, hit = orch.replay(path, known=known)
         if hit is None:
